@@ -112,6 +112,18 @@ def w_api(case):
     colors = _impl["colors"]
     out = {"case": case}
     try:
+        if _with_history(case):
+            # earlier calls on *other* objects for the same values: the text value on its own (no background), its informal string
+            # spelling when it is a tuple / list, the same pair at the other text size and in another mode
+            out["history"] = True
+            try:
+                colors.Color(text_sp)
+                if isinstance(text_sp, (tuple, list)):
+                    colors.ColorPair(str(text_sp), bg_sp, bool(large)).make_readable(mode=mode, very_readable=bool(very))
+                colors.ColorPair(text_sp, bg_sp, not bool(large)).make_readable(mode=mode, very_readable=bool(very))
+                colors.ColorPair(text_sp, bg_sp, bool(large)).make_readable(mode=(mode + 1) % 3, very_readable=bool(very))
+            except Exception:  # noqa
+                pass
         pair = colors.ColorPair(text_sp, bg_sp, bool(large))
         if not pair.is_valid:
             out["invalid"] = pair.errors
@@ -119,17 +131,11 @@ def w_api(case):
         out["t"] = tuple(pair.text.rgb)
         out["b"] = tuple(pair.bg.rgb)
         if _with_history(case):
-            # the same pair object, asked first with the other settings (and the same pair at the other text size)
-            out["history"] = True
+            # … and on the same pair object, asked first with the other settings
             try:
                 pair.make_readable(mode=(mode + 1) % 3, very_readable=not bool(very))
                 pair.make_readable(mode=mode, very_readable=not bool(very))
-                pair.make_readable(mode=(mode + 2) % 3, very_readable=bool(very))       # same settings, other modes
-                colors.ColorPair(text_sp, bg_sp, bool(large)).make_readable(mode=(mode + 1) % 3, very_readable=bool(very))
-                colors.Color(text_sp)                                                   # the same text value on its own: no background
-                if isinstance(text_sp, (tuple, list)):
-                    colors.ColorPair(str(text_sp), bg_sp, bool(large)).make_readable(mode=mode, very_readable=bool(very))   # its informal string spelling
-                colors.ColorPair(text_sp, bg_sp, not bool(large)).make_readable(mode=mode, very_readable=bool(very))
+                pair.make_readable(mode=(mode + 2) % 3, very_readable=bool(very))
             except Exception:  # noqa
                 pass
         res, ok = pair.make_readable(mode=mode, very_readable=bool(very))
